@@ -31,10 +31,25 @@ func (g *Graph) TopoShortestPath(L TopoOrder) (distTo map[interface{}]int, edgeT
 	for _, u := range L {
 		uh := hashcode(u)
 
+		// A vertex without a distance is a source (distance zero) if it has
+		// no incoming edges. If it has incoming edges but none of them gave
+		// it a distance, it is infinitely far away and so is everything that
+		// can only be reached through it.
+		du, ok := distTo[uh]
+		if !ok && len(g.adjacencyIn[uh]) > 0 {
+			continue
+		}
+
 		// Walk through all neighbors v of u;
 		for vh, weight := range g.adjacencyOut[uh] {
+			// A sum that doesn't fit an int is farther away than any
+			// distance we can report.
+			if weight > 0 && du > maxInt-weight {
+				continue
+			}
+
 			// x = dist(u) + w(u, v)
-			x := distTo[uh] + weight
+			x := du + weight
 
 			// If dist(v) > dist(u) + w(u, v)
 			if _, ok := distTo[vh]; !ok || distTo[vh] > x {
